@@ -12,7 +12,7 @@ def gen_cfg(constants, invariants=("Emit",)):
 def c01(run):
     run.rule = ("GEN: TLC enumerates expression cases (types scope: every unary/binary/boolean operator over the full literal pool "
                 "incl. hex/octal/exponent/escaped spellings, carried as literals, variables and fields; prec scope: every ordered pair of operators in both "
-                "groupings and with each unary form inside/outside, over 6 leaf triples; shape scope (thorough): all two-level operator trees over all 12 binary operators; sim: seeded random deep trees) with the meaning BclSem gives them; each is run through bcl.Interpret. "
+                "groupings and with each unary form inside/outside, over 6 leaf triples; big scope: comparisons, sums and differences of 17 integers around 2^31, 2^32, 2^53, 10^18, 2^62 and 2^63-1 as literals, hexadecimal literals, variables and negated, computed on digit sequences; shape scope (thorough): all two-level operator trees over all 12 binary operators; sim: seeded random deep trees) with the meaning BclSem gives them; each is run through bcl.Interpret. "
                 "Non-trivial = at least two operators, or one binary operator whose operands are of different kinds; distinct by source text.")
     run.assumptions += ["values outside the exactly computable domain (|int| >= 2^30, non-dyadic or long floats, exponent-form prints) are OOD: skipped and counted, never judged",
                         "runtime-error wording is not pinned by C01: a different text on a still-failing program is DRIFT"]
@@ -23,6 +23,8 @@ def c01(run):
     n = 20000 if run.quick else 300000
     run.gen_replay("Gen_Expr", gen_cfg(dict(Scope="sim", ShapeLeaves=3)), ["replay-prog"], "C01:sim",
                    simulate=10 ** 9, depth=8 if run.quick else 12, workers=1, max_cases=n)
+    # 64-bit integers beyond TLC's own: numerals as digit sequences with their own comparison / addition / subtraction
+    run.gen_replay("Gen_Big", cfg(invariants=("Emit", "Lemma")), ["replay-prog"], "C01:big")
     # short-circuit jumps whose distance crosses 255/256 and 511/512 (taken and not taken), outcome in closed form
     run.gen_replay("Gen_Total", cfg(constants=dict(Scope="jumps", MaxLen=1), invariants=("Emit",)), ["replay-total"], "C01:jumps")
     tv_vm(run, "C01:vm", 600 if run.quick else 6000)
@@ -117,6 +119,8 @@ def c03(run):
                 "compared: the []Block tree incl. Go dynamic types and the blocks returned with a runtime error. "
                 "Non-trivial = at least two block definitions; distinct by source text.")
     run.assumptions += ["programs never read a child block as a value nor assign a field named like an existing child key (undefined by the property)"]
+    # blocks nested to every supported depth with more blocks opened afterwards (closed-form output)
+    run.gen_replay("Gen_Total", cfg(constants=dict(Scope="blockscale", MaxLen=1), invariants=("Emit",)), ["replay-total"], "C03:depth")
     mc_chain(run, "blocks", 2)
     run.gen_replay("Gen_Prog", gen_cfg(dict(Scope="blocks", MaxItems=2 if run.quick else 3)), ["replay-prog"], "C03:blocks")
     # blocks of two types around bind statements: a bind must leave the result list as it is
@@ -130,11 +134,14 @@ def c03(run):
 def c04(run):
     run.rule = ("GEN: all sequences of <= N toplevel items (N=3 quick, 4 thorough) over 4 block definitions and 18 bind forms "
                 "(every selector incl. an unknown one x every target incl. an unknown one); compared: binding kind and blocks, "
-                "warning count, error class. Non-trivial = at least one bind and one block; distinct by source text.")
+                "warning count, error class; every token of the vocabulary as selector and as target (accept/reject by the grammar). Non-trivial = at least one bind and one block; distinct by source text.")
     mc_chain(run, "bind", 3)
     mc_chain(run, "bindmany", 5)
     run.gen_replay("Gen_Prog", gen_cfg(dict(Scope="bind", MaxItems=3 if run.quick else 4)), ["replay-prog"], "C04:bind")
     run.gen_replay("Gen_Prog", gen_cfg(dict(Scope="bindmany", MaxItems=5 if run.quick else 6)), ["replay-prog"], "C04:bindmany")   # up to 3 binds
+    # the selector and the target as tokens: every token of the full vocabulary in either place (other spellings of the value one
+    # -- 01, 0x1 -- are not the selector '1'); accept/reject decided by the grammar
+    run.gen_replay("Gen_Gram", gen_cfg(dict(Scope="bindsel", MaxLen=1)), ["replay-gram"], "C04:bindsel")
     tv_vm(run, "C04:vm", 500 if run.quick else 5000, seed_off=4)
     run.exhaustive = True
 
